@@ -100,6 +100,7 @@ def sigName : Option Sig → String
 def refusalName : Option Refusal → String
   | none => "" | some .opBcArgCount => "opBcArgCount" | some .opBcNotOperator => "opBcNotOperator"
   | some .opBcAccess => "opBcAccess" | some .fieldBcNotField => "fieldBcNotField"
+  | some .fieldBcNoAnySpace1 => "fieldBcNoAnySpace1"
 def stubRefusalName : Option StubRefusal → String
   | none => "" | some .notCellColumn => "notCellColumn" | some .intergrid => "intergrid"
   | some .basisOnAnySpace => "basisOnAnySpace" | some (.generate r) => refusalName (some r)
